@@ -72,7 +72,7 @@ def step (st0 : St) (ws : List String) : St × String :=
   | ["new", m] =>
     if plan 1 then ({ tbl := Tbl.init, mode := m.toNat!, quiet := st.quiet }, "null live=0")
     else ({ tbl := Tbl.init, mode := m.toNat!, quiet := st.quiet }, "ok " ++ stateStr Tbl.init)
-  | ["end"] => ({ st with tbl := Tbl.init, cur := {}, mode := 0 }, "end live=0")
+  | ["end"] => ({ st with tbl := Tbl.init, cur := {}, mode := 0 }, "end live=0 bad=0")
   | ["quiet", q] => ({ st0 with quiet := q != "0" }, "ok")
   | ["dump"] => (st0, "ok " ++ stateStrQ false st.tbl)
   | ["put", k, v] =>
@@ -105,7 +105,7 @@ def step (st0 : St) (ws : List String) : St × String :=
   | ["max"] =>
     let (k, n) := st.tbl.findMaxF plan
     (st, s!"allocs={n} " ++ match k with | some k => "key " ++ hx k | none => if n == 0 then "ENOENT" else "ENOMEM")
-  | ["clear"] => let t := st.tbl.clear; ({ st with tbl := t }, "ok " ++ stateStr t)
+  | ["clear"] => let t := st.tbl.clear; ({ st0 with tbl := t }, "ok " ++ stateStr t)
   | ["cursor0"] => ({ st0 with cur := {} }, "ok")
   | ["next"] =>
     match st.tbl.getnextF ie plan st.cur with
